@@ -1,93 +1,75 @@
 (* Property C11 - a tag accepts its arguments exactly when the equivalent Python call would.
    Only statements here; proofs live in Bind/Proofs.v.  Model: Bind/Model.v.
 
-   py_bind   = the equivalent Python call render(self, context, <arguments in order>)   (S-model)
-   impl_bind = wrapper_render: split off special keys, validate (fast path when use_code = true, else
-               the inspect.Signature fallback), then really call render(self, context, *args, **kwargs) (M-model)
-   res_equiv = both bind the same values to the same parameters (kwargs compared as a dictionary),
-               or both refuse with TypeError / SyntaxError.
-   All theorems hold for every signature accepted by `def` (wfb), every argument sequence including
-   spreads, every classification `special` of keys into identifiers / non-identifiers, and both paths.
+   py_bind   = the equivalent Python call render(self, context, <arguments in order>)   (S-model; compared with
+               REAL Python calls on every case of the correspondence run)
+   impl_bind = wrapper_render: split off non-identifier keys, validate (fast path over __code__ when
+               use_code = true, else the inspect.Signature fallback), then really call
+               render(self, context, *args, **kwargs)                                    (M-model)
+   res_equiv = both bind the same values to the same parameters, defaults included ( **kwargs compared as a
+               dictionary), or both refuse with TypeError / SyntaxError.
+   All theorems hold for every signature accepted by `def` whose first two positional parameters are self and
+   context (wfb), every argument sequence including spreads, every classification `special` of keys into
+   identifiers / non-identifiers that makes the parameter names identifiers, and both validation paths.
 
-   The CURRENT code departs from Python on two input classes (reported, see notes/fixes/C11-*.patch):
-     clash_posonly : a keyword names a positional-only parameter that already received a positional argument
-                     and **kwargs exists            - Python: goes into kwargs; the tag: TypeError
-     clash_special : the same non-identifier / reserved-word key twice
-                                                    - Python: TypeError; the tag: silently keeps the last
-   `guard c` excludes exactly the classes whose repair is not switched on in c, so the general theorem gives
-   the full statement for the repaired code and the _partial one for the current code. *)
+   The model is the code after the fix commits 3c868d2, 8478320, 81cf028; the inputs on which the code
+   departed from Python before them are kept as Examples below (and in corpus/C11). *)
 From DJC Require Import Lib.Base Bind.Model Bind.Proofs.
 Import Coq.Strings.String.StringSyntax.
 Local Open Scope string_scope.
 
-(* Full statement, current code: refuted by two concrete witnesses (replayed on /repo by harness/c11.py). *)
-Theorem tag_binds_like_python_refuted_posonly_kwarg :
-  exists F call, wfb py_special F = true /\
-    ~ res_equiv (impl_bind current_cfg py_special true SV CV F call) (py_bind SV CV F call).
-Proof.
-  (* def render(self, context, a, /, **kw)   {% tag 11 a=12 %} *)
-  exists (mkSig [mkP (s2n "self") None; mkP (s2n "context") None; mkP (s2n "a") None] [] None [] (Some (s2n "kw"))),
-         [TPos 11%N; TKw (s2n "a") 12%N].
-  split; [vm_compute; reflexivity | vm_compute; intro H; exact H].
-Qed.
-Print Assumptions tag_binds_like_python_refuted_posonly_kwarg.
-
-Theorem tag_binds_like_python_refuted_duplicate_special :
-  exists F call, wfb py_special F = true /\
-    ~ res_equiv (impl_bind current_cfg py_special true SV CV F call) (py_bind SV CV F call).
-Proof.
-  (* def render(self, context, **kw)   {% tag data-x=11 data-x=12 %} *)
-  exists (mkSig [] [mkP (s2n "self") None; mkP (s2n "context") None] None [] (Some (s2n "kw"))),
-         [TKw (s2n "data-x") 11%N; TKw (s2n "data-x") 12%N].
-  split; [vm_compute; reflexivity | vm_compute; intro H; exact H].
-Qed.
-Print Assumptions tag_binds_like_python_refuted_duplicate_special.
-
-(* Current code, outside those two classes: the tag accepts exactly when Python does and then calls render()
-   with the same bindings, defaults included; otherwise both refuse.  Missing for the full statement: the
-   two classes above (where the theorem is false today). *)
-Theorem tag_binds_like_python_partial : forall special use_code sv cv F call,
-  wfb special F = true -> guard current_cfg special F (resolve call) = true ->
-  res_equiv (impl_bind current_cfg special use_code sv cv F call) (py_bind sv cv F call).
-Proof. intros special use_code sv cv F call. exact (bind_equiv_lemma current_cfg special use_code sv cv F call). Qed.
-Print Assumptions tag_binds_like_python_partial.
-
-(* The same model with the two proposed repairs switched on satisfies the full statement, no guard. *)
-Theorem tag_binds_like_python_after_repair : forall special use_code sv cv F call,
+(* The tag and the equivalent Python call: same bindings (defaults included), or both refuse. *)
+Theorem tag_binds_like_python : forall special use_code sv cv F call,
   wfb special F = true ->
-  res_equiv (impl_bind fixed_cfg special use_code sv cv F call) (py_bind sv cv F call).
-Proof.
-  intros special use_code sv cv F call WF.
-  exact (bind_equiv_lemma fixed_cfg special use_code sv cv F call WF (guard_fixed special F (resolve call))).
-Qed.
-Print Assumptions tag_binds_like_python_after_repair.
+  res_equiv (impl_bind special use_code sv cv F call) (py_bind sv cv F call).
+Proof. exact bind_equiv_lemma. Qed.
+Print Assumptions tag_binds_like_python.
+
+(* "accepts exactly when": acceptance of the tag and of the Python call coincide. *)
+Theorem tag_accepts_iff_python_accepts : forall special use_code sv cv F call,
+  wfb special F = true ->
+  ((exists b, impl_bind special use_code sv cv F call = Ok b) <-> (exists b, py_bind sv cv F call = Ok b)).
+Proof. exact accepts_iff_lemma. Qed.
+Print Assumptions tag_accepts_iff_python_accepts.
 
 (* Fast path (fn.__code__ index arithmetic) and fallback (inspect.Signature) lead to the same call or the same
-   refusal.  Partial for the current code only because it is derived through Python's rule under the guard. *)
-Theorem fast_path_agrees_with_fallback_partial : forall c special sv cv F call,
-  wfb special F = true -> guard c special F (resolve call) = true ->
-  res_equiv (impl_bind c special true sv cv F call) (impl_bind c special false sv cv F call).
+   refusal. *)
+Theorem fast_path_agrees_with_fallback : forall special sv cv F call,
+  wfb special F = true ->
+  res_equiv (impl_bind special true sv cv F call) (impl_bind special false sv cv F call).
 Proof. exact fast_fallback_lemma. Qed.
-Print Assumptions fast_path_agrees_with_fallback_partial.
+Print Assumptions fast_path_agrees_with_fallback.
 
 (* Whatever is refused is refused with TypeError or SyntaxError (never IndexError from defaults[...] or
    param_names[...]), and SyntaxError only for a positional argument after a keyword one. *)
-Theorem only_type_or_syntax_error_partial : forall c special use_code sv cv F call e,
-  wfb special F = true -> guard c special F (resolve call) = true ->
-  impl_bind c special use_code sv cv F call = Err e ->
+Theorem only_type_or_syntax_error : forall special use_code sv cv F call e,
+  wfb special F = true ->
+  impl_bind special use_code sv cv F call = Err e ->
   (e = TypeError \/ e = SyntaxError) /\ (e = SyntaxError -> pos_after_kw (resolve call) false = true).
 Proof. exact error_class_lemma. Qed.
-Print Assumptions only_type_or_syntax_error_partial.
+Print Assumptions only_type_or_syntax_error.
 
 (* A key that is not a Python identifier is accepted only through **kwargs: if the tag accepts a call that
    contains it, render() has **kwargs, no parameter has that name, and kwargs maps the key to its value. *)
-Theorem non_identifier_only_via_varkw_partial : forall c special use_code sv cv F call k v b,
-  wfb special F = true -> guard c special F (resolve call) = true ->
+Theorem non_identifier_only_via_varkw : forall special use_code sv cv F call k v b,
+  wfb special F = true ->
   In (Some k, v) (resolve call) -> special k = true ->
-  impl_bind c special use_code sv cv F call = Ok b ->
+  impl_bind special use_code sv cv F call = Ok b ->
   s_vk F <> None /\ ~ In k (all_names F) /\ exists d, b_kw b = Some d /\ klookup k d = Some v.
 Proof. exact special_only_varkw_lemma. Qed.
-Print Assumptions non_identifier_only_via_varkw_partial.
+Print Assumptions non_identifier_only_via_varkw.
+
+(* Whenever wrapper_render gets as far as the statement  orig_render(self, context, *args, **kwargs)  - i.e. its
+   own split and the validator both returned - that call binds exactly what the equivalent Python call binds, or
+   Python's binding of it raises TypeError and the equivalent call is refused too: render() never runs with
+   other bindings. *)
+Theorem never_called_with_other_bindings : forall special use_code sv cv F call reg inv args kwargs,
+  wfb special F = true ->
+  wsplit special (resolve call) false [] = Ok (reg, inv) ->
+  validate_params use_code F reg inv = Ok (args, kwargs) ->
+  res_equiv (py_call F (sv :: cv :: args) kwargs) (py_bind sv cv F call).
+Proof. exact never_other_bindings_lemma. Qed.
+Print Assumptions never_called_with_other_bindings.
 
 (* Sanity of the S-model: an accepted Python call binds every parameter exactly once, in signature order, and
    **kwargs holds only supplied keywords that name no keyword-capable parameter. *)
@@ -101,29 +83,59 @@ Print Assumptions python_binds_each_parameter_once.
 
 (* ---------- non-vacuity ---------- *)
 (* def render(self, context, a, b=902, /, c=903, *ar, d, e=905, **kw)
-   {% tag 11 c=12 data-x=13 ...{"d": 14, "u": 15} %} : guard and wfb hold, defaults are applied, the call is accepted *)
+   {% tag 11 c=12 data-x=13 ...{"d": 14, "u": 15} %} : wfb holds, defaults are applied, the call is accepted, on both paths *)
 Example premises_satisfiable :
   let F := mkSig [mkP (s2n "self") None; mkP (s2n "context") None; mkP (s2n "a") None; mkP (s2n "b") (Some 902%N)]
                  [mkP (s2n "c") (Some 903%N)] (Some (s2n "ar"))
                  [mkP (s2n "d") None; mkP (s2n "e") (Some 905%N)] (Some (s2n "kw")) in
   let call := [TPos 11%N; TKw (s2n "c") 12%N; TKw (s2n "data-x") 13%N; TSpreadD [(s2n "d", 14%N); (s2n "u", 15%N)]] in
-  wfb py_special F = true /\ guard current_cfg py_special F (resolve call) = true /\
-  impl_bind current_cfg py_special true SV CV F call =
+  wfb py_special F = true /\
+  impl_bind py_special true SV CV F call =
     Ok (mkB [(s2n "self", SV); (s2n "context", CV); (s2n "a", 11%N); (s2n "b", 902%N); (s2n "c", 12%N);
              (s2n "d", 14%N); (s2n "e", 905%N)] (Some []) (Some [(s2n "u", 15%N); (s2n "data-x", 13%N)])) /\
-  impl_bind current_cfg py_special false SV CV F call = impl_bind current_cfg py_special true SV CV F call.
+  impl_bind py_special false SV CV F call = impl_bind py_special true SV CV F call.
 Proof. vm_compute. repeat split. Qed.
 
-(* the witness of the defect fixed in 3c868d2 is handled like Python now: def render(self, context, a=1, /, **kw), {% tag %} *)
+(* premises of never_called_with_other_bindings are satisfiable with a call that Python's binding then refuses:
+   def render(self, context, a, /)   {% tag a=1 %} : the validator lets the key through (it is a parameter name),
+   orig_render(self, context, a=1) raises TypeError, and so does the equivalent call *)
+Example validator_passes_call_refuses :
+  let F := mkSig [mkP (s2n "self") None; mkP (s2n "context") None; mkP (s2n "a") None] [] None [] None in
+  let call := [TKw (s2n "a") 1%N] in
+  wsplit py_special (resolve call) false [] = Ok ([(Some (s2n "a"), 1%N)], []) /\
+  validate_params true F [(Some (s2n "a"), 1%N)] [] = Ok ([], [(s2n "a", 1%N)]) /\
+  py_call F [SV; CV] [(s2n "a", 1%N)] = Err TypeError /\ py_bind SV CV F call = Err TypeError.
+Proof. vm_compute. repeat split. Qed.
+
+(* witnesses of the three defects that were fixed: the model of the current code agrees with Python on them *)
+(* 3c868d2: def render(self, context, a=1, /, **kw), {% tag %} *)
 Example posonly_default_fixed :
   let F := mkSig [mkP (s2n "self") None; mkP (s2n "context") None; mkP (s2n "a") (Some 1%N)] [] None [] (Some (s2n "kw")) in
-  impl_bind current_cfg py_special true SV CV F [] = py_bind SV CV F [] /\
+  impl_bind py_special true SV CV F [] = py_bind SV CV F [] /\
+  impl_bind py_special false SV CV F [] = py_bind SV CV F [] /\
   py_bind SV CV F [] = Ok (mkB [(s2n "self", SV); (s2n "context", CV); (s2n "a", 1%N)] None (Some [])).
-Proof. vm_compute. split; reflexivity. Qed.
+Proof. vm_compute. repeat split. Qed.
 
-(* a refusal with SyntaxError exists (positional after a special keyword) *)
+(* 81cf028: def render(self, context, a, /, **kw)   {% tag 11 a=12 %}  binds a=11, kw={'a': 12} *)
+Example posonly_name_as_kwarg_fixed :
+  let F := mkSig [mkP (s2n "self") None; mkP (s2n "context") None; mkP (s2n "a") None] [] None [] (Some (s2n "kw")) in
+  let call := [TPos 11%N; TKw (s2n "a") 12%N] in
+  impl_bind py_special true SV CV F call = py_bind SV CV F call /\
+  impl_bind py_special false SV CV F call = py_bind SV CV F call /\
+  py_bind SV CV F call = Ok (mkB [(s2n "self", SV); (s2n "context", CV); (s2n "a", 11%N)] None (Some [(s2n "a", 12%N)])).
+Proof. vm_compute. repeat split. Qed.
+
+(* 8478320: def render(self, context, **kw)   {% tag data-x=11 data-x=12 %}  is refused like f( **{..}, **{..}) *)
+Example duplicate_special_key_fixed :
+  let F := mkSig [] [mkP (s2n "self") None; mkP (s2n "context") None] None [] (Some (s2n "kw")) in
+  let call := [TKw (s2n "data-x") 11%N; TKw (s2n "data-x") 12%N] in
+  impl_bind py_special true SV CV F call = Err TypeError /\ impl_bind py_special false SV CV F call = Err TypeError /\
+  py_bind SV CV F call = Err TypeError.
+Proof. vm_compute. repeat split. Qed.
+
+(* a refusal with SyntaxError exists (positional after a non-identifier keyword) *)
 Example syntax_error_reachable :
-  impl_bind current_cfg py_special true SV CV
+  impl_bind py_special true SV CV
             (mkSig [] [mkP (s2n "self") None; mkP (s2n "context") None] (Some (s2n "ar")) [] (Some (s2n "kw")))
             [TKw (s2n "data-x") 1%N; TPos 2%N] = Err SyntaxError.
 Proof. vm_compute. reflexivity. Qed.
